@@ -5,7 +5,7 @@ From Coq Require Import List NArith ZArith Bool.
 Import ListNotations.
 From Mos Require Import model.I64 Gen.BinOps model.Expr spec.Cpu6502 Gen.CpuSyms model.TestRun spec.TestSpec
   proofs.TestRunProofs.
-From Mos Require Gen.OpcodeTable spec.Isa proofs.Cpu6502Proofs.
+From Mos Require Gen.OpcodeTable spec.Isa proofs.Cpu6502Proofs model.Output spec.Layout proofs.TestBankProofs.
 Open Scope Z_scope.
 
 (* For every element list (assertions and traces at arbitrary program counters, also inside loops and
@@ -87,6 +87,17 @@ Theorem C18_initial_ram : forall banks t b r a,
 Proof. exact initial_ram. Qed.
 Print Assumptions C18_initial_ram.
 
+(* composed with C09: the RAM a test starts with holds, at every address inside the span of the test's bank, the byte
+   of the LAST-defined segment of THAT bank covering the address (else the bank's fill), and 0 outside the span --
+   segments of other banks do not appear *)
+Theorem C18_test_ram_pointwise : forall fill segs a,
+  segs <> [] -> Forall Layout.nonempty segs ->
+  ram_read (TestBankProofs.ram_of_bank_segments fill segs) a =
+    if (Layout.spec_lo segs <=? a) && (a <? Layout.spec_hi segs)
+    then byte8 (Z.of_N (Layout.spec_byte fill segs a)) else 0.
+Proof. exact TestBankProofs.test_ram_pointwise. Qed.
+Print Assumptions C18_test_ram_pointwise.
+
 (* exit status of `mos test`: non-zero iff at least one test failed *)
 Theorem C18_exit_status : forall results,
   process_exit_status (test_command results) <> 0 <-> exists name f, In (name, Failed f) results.
@@ -111,6 +122,12 @@ Theorem C18_decode_isa : forall o m md, decode o = Some (m, md) <-> Isa.isa m md
 Proof. exact Cpu6502Proofs.decode_isa. Qed.
 Print Assumptions C18_decode_isa.
 
+(* in every state a test can reach, registers and RAM cells are bytes, SP stays in the stack page, pc is a 16-bit address *)
+Theorem C18_machine_wf : forall k pc start data,
+  Cpu6502Proofs.wf_state (Nat.iter k step (cpu_init pc (load_program start data))).
+Proof. exact Cpu6502Proofs.run_states_wf. Qed.
+Print Assumptions C18_machine_wf.
+
 (* F-C18a, repaired in /repo by 900f3f8: a runner that removes an element from its list when it fires reports
    `passed` for an assertion in a loop that is false on the second visit (corpus/C18/loop_assert.asm) and for an
    assertion in a subroutine that is false on the second call (corpus/C18/sub_twice.asm) *)
@@ -127,3 +144,17 @@ Example C18_witnesses_now_fail :
   (exists f, run 20 (runner0 w1_elements w1_cpu) = Failed f /\ f_loc f = mkLoc 4 13 /\ rX (f_cpu f) = 2) /\
   (exists f, run 20 (runner0 w2_elements w2_cpu) = Failed f /\ f_loc f = mkLoc 7 13 /\ rA (f_cpu f) = 0).
 Proof. exact witnesses_now_fail. Qed.
+
+(* step_over / step_out (used by the debug adapter): the crate's two unit tests, `jsr foo / brk / foo: nop / rts` *)
+Definition so_image : list N := [32; 4; 192; 0; 234; 96]%N.
+Definition so_runner : runner := mkRunner [] (cpu_init 49152 (load_program 49152 so_image)) [].
+Example C18_step_over_unit_test :
+  match step_over 10 so_runner with Some (Running r) => rPC (r_cpu r) = 49155 | _ => False end.
+Proof. vm_compute. reflexivity. Qed.
+Example C18_step_out_unit_test :
+  match execute_instruction so_runner with
+  | Running r1 => rPC (r_cpu r1) = 49156 /\
+                  match step_out 10 r1 with Some (Running r2) => rPC (r_cpu r2) = 49155 | _ => False end
+  | _ => False
+  end.
+Proof. vm_compute. split; reflexivity. Qed.
